@@ -455,7 +455,11 @@ def _eager_generators_as_collectors(parsed: List[Tuple[str, ast.Module]], known:
                            for st in _own_nodes(fd) if isinstance(st, ast.Expr) and isinstance(st.value, (ast.Yield, ast.YieldFrom)))
             as_stmt = {id(st.value) for st in _own_nodes(fd) if isinstance(st, ast.Expr) and isinstance(st.value, (ast.Yield, ast.YieldFrom))}
             rets_ok = all(r.value is None for r in _own_nodes(fd) if isinstance(r, ast.Return))
-            if stmts_ok and rets_ok and all(id(y) in as_stmt for y in ys):
+            # a yield GUARDED by a handler (inside the body of a try that has handlers) is left alone: whether a failure part-way
+            # through keeps what was already yielded is exactly what the read-path rules judge on the generator itself
+            guarded = any(isinstance(t, ast.Try) and t.handlers and any(isinstance(y, (ast.Yield, ast.YieldFrom)) for b in t.body for y in ast.walk(b))
+                          for t in _own_nodes(fd))
+            if stmts_ok and rets_ok and not guarded and all(id(y) in as_stmt for y in ys):
                 cands.setdefault(fd.name, []).append(fd)
             else:
                 cands.setdefault(fd.name, []).append(None)  # type: ignore[arg-type]
